@@ -51,6 +51,9 @@ func parseSparseShares(shares []Share) (blobs []*Blob, err error) {
 	}
 	for _, sequence := range sequences {
 		// trim any padding from the end of the sequence
+		if uint64(sequence.sequenceLen) > uint64(len(sequence.data)) {
+			return nil, fmt.Errorf("sequence length %d exceeds the %d bytes available in its shares", sequence.sequenceLen, len(sequence.data))
+		}
 		sequence.data = sequence.data[:sequence.sequenceLen]
 		blob, err := NewBlob(sequence.ns, sequence.data, sequence.shareVersion, sequence.signer)
 		if err != nil {
